@@ -3,6 +3,7 @@
   "handed to a pipe" ghost flag and the log of accepted replies; preserved by every step.
 -/
 import NngModel.Model.Req
+import NngModel.Generated.C04REQ
 namespace Nng.Req
 open Nng Nng.Proto
 
